@@ -844,4 +844,4 @@ pub fn stop_poll(epoch: &Epoch) -> bool {
 }
 
 /// A search that is told to stop at every poll gets this many more polls before it is unwound.
-pub const KILL_AFTER_POLLS: u64 = 2_000;
+pub const KILL_AFTER_POLLS: u64 = 500;
